@@ -72,8 +72,16 @@ type quotaH struct {
 	closed     bool
 }
 
+// see admitKeep in c_admit_test.go: objects embedding a sync.WaitGroup stay reachable so that their
+// address is never reused by a later bubble.
+var quotaKeep []*quotaH
+
 func init() {
-	register("s_quota", func() SHandler { return &quotaH{byID: map[uint32]*transport.ClientStream{}} })
+	register("s_quota", func() SHandler {
+		h := &quotaH{byID: map[uint32]*transport.ClientStream{}}
+		quotaKeep = append(quotaKeep, h)
+		return h
+	})
 }
 
 func (h *quotaH) peerReader() {
@@ -396,6 +404,7 @@ func (h *quotaH) Close() {
 		<-h.readerDone
 	}
 	h.wg.Wait()
+	h.ct, h.cli, h.srv, h.fr, h.henc, h.callers, h.byID = nil, nil, nil, nil, nil, nil, nil
 	if h.maxIDSet {
 		transport.MaxStreamID = h.savedMaxID
 	}
